@@ -31,14 +31,25 @@ Definition impl_heights_ok (first : Z) (rs : list row) : bool :=
   end.
 
 (* C12: a rate row recorded at one dump is still there, unchanged, in every later dump *)
-Fixpoint impl_rates_immutable (ds : list (list row)) : bool :=
-  match ds with
-  | [] => true
-  | d :: ds' =>
-    forallb (fun r => match r with
-                      | 4 :: _ => forallb (fun d' => existsb (list_Z_eqb r) d') ds'
-                      | _ => true end) d && impl_rates_immutable ds'
+(* both lists sorted by row_ltb: every row of [a] occurs in [b] (linear merge; fuel = |a| + |b|) *)
+Fixpoint sub_sorted_fuel (fuel : nat) (a b : list row) : bool :=
+  match fuel with
+  | O => match a with [] => true | _ => false end
+  | S k => match a, b with
+           | [], _ => true
+           | _ :: _, [] => false
+           | x :: a', y :: b' => if list_Z_eqb x y then sub_sorted_fuel k a' b'
+                                 else if row_ltb y x then sub_sorted_fuel k a b' else false
+           end
   end.
+Definition sub_sorted (a b : list row) : bool := sub_sorted_fuel (length a + length b) a b.
+Fixpoint rates_immutable_from (ds : list (list row)) : bool :=
+  match ds with
+  | d :: ((d' :: _) as ds') => sub_sorted d d' && rates_immutable_from ds'
+  | _ => true
+  end.
+Definition impl_rates_immutable (ds : list (list row)) : bool :=
+  rates_immutable_from (map (filter (fun r => match r with 4 :: _ => true | _ => false end)) ds).
 
 (* C17: replaying the recorded history reproduces the balances.  Every executed history action
    contributes: transfer (1): -from_amount to the sender, +amount to each output that is not a burn
@@ -90,8 +101,9 @@ Record chain_report := {
   cr_rates_immutable : bool
 }.
 Definition report (tags : list Z) (c : cfg) (bs : list block) (ex : list obs) : chain_report :=
-  {| cr_full := run_chain c genesis empty_cache bs ex;
-     cr_proj := run_chain_gen (keep_tags tags) c genesis empty_cache bs ex;
+  let r := run_chain2 (keep_tags tags) c genesis empty_cache bs ex None in
+  {| cr_full := fst r;
+     cr_proj := snd r;
      cr_nonneg := impl_nonneg ex;
      cr_applied := impl_all_applied ex;
      cr_rates_immutable := impl_rates_immutable (recorded ex) |}.
